@@ -300,6 +300,18 @@ func (c *Ctx) judgeSuccess(h *History, o *Obs, g *GenSpec, add func(o *Obs, clas
 var faultKinds = []string{"err", "create-then-err", "short", "partial-mkdir", "write-enospc", "crash-before", "crash-after", "crash-torn"}
 var stages = []string{"directive", "methoddirective", "signature", "conversion", "marker", "load", "render", "syntax", "generic", "errorfield"}
 
+// stageFor maps a stage onto one that exists for the converter: an empty variables block has
+// no function a signature-, method- or conversion-stage defect could sit on.
+func stageFor(c *LConv, st string) string {
+	if c.Empty {
+		switch st {
+		case "signature", "methoddirective", "conversion", "generic", "errorfield":
+			return "directive"
+		}
+	}
+	return st
+}
+
 // C17Cases builds the fault enumeration for one layout spec.
 func C17Cases(c *Ctx, rng *rand.Rand, spec *LSpec, withDisk bool, nArgv int) ([]*History, error) {
 	var hs []*History
@@ -351,6 +363,7 @@ func C17Cases(c *Ctx, rng *rand.Rand, spec *LSpec, withDisk bool, nArgv int) ([]
 				if cs.stage != "" {
 					bad.Convs[i].Defect = cs.stage
 				}
+				bad.Convs[i].Defect = stageFor(&bad.Convs[i], bad.Convs[i].Defect)
 				lab = append(lab, fmt.Sprintf("%s:%s", bad.Convs[i].Name, bad.Convs[i].Defect))
 			}
 		}
@@ -433,7 +446,7 @@ func C17Cases(c *Ctx, rng *rand.Rand, spec *LSpec, withDisk bool, nArgv int) ([]
 		for k := 0; k < 2; k++ {
 			bad := v2.Clone()
 			di := rng.IntN(n)
-			bad.Convs[di].Defect = []string{"conversion", "signature", "directive"}[rng.IntN(3)]
+			bad.Convs[di].Defect = stageFor(&bad.Convs[di], []string{"conversion", "signature", "directive"}[rng.IntN(3)])
 			mk := func(setup bool, expect string) Op {
 				g := &GenSpec{Setup: setup, Expect: expect, Plan: planIdentity()}
 				if k == 0 {
